@@ -88,9 +88,9 @@ Lemma value_sound : forall fuel slen st0 ch rest st' s',
   fsm_value fuel slen st0 ch rest = Ok (st', s') -> (length rest <= fuel)%nat ->
   (forall r, lang false st' s' r ->
      exists v s1, ch :: rest = v ++ s1 /\ sval (MAX_RECURSE - length st0) v /\ lang false st0 s1 r) \/
-  (s' = [] /\ bugged (ch :: rest)).
+  (s' = [] /\ st' = st0 /\ ch = 34 /\ bug_class rest = true).
 Proof.
-  intros fuel slen st0 ch rest st' s' H Hl. unfold fsm_value in H.
+  intros fuel slen st0 ch rest st' s' H Hl. unfold fsm_value, fsm_value_g in H.
   destruct (is_digit ch) eqn:Ed.
   { (* number *)
     apply bind_ok in H. destruct H as [r1 [H1 H2]]. inversion H2; subst. left. intros r L.
@@ -153,7 +153,7 @@ Proof.
     destruct (skip_string_sound _ _ _ H1 Hl) as [[bd [-> Hbd]]|[-> Hbug]].
     - left. intros r L. exists (34 :: bd ++ [34]), s'.
       split; [cbn [app]; rewrite <- app_assoc; reflexivity|]. split; [apply SV_str; auto|auto].
-    - right. split; [reflexivity|]. exists [], rest. auto. }
+    - right. auto. }
   destruct (ch =? 0); discriminate.
 Qed.
 
@@ -161,16 +161,19 @@ Qed.
 
 Lemma step_sound : forall fuel slen t st s st' s',
   fsm_step fuel slen t st s = Ok (st', s') -> (length s <= fuel)%nat ->
-  (forall r, lang false st' s' r -> lang false (t :: st) s r) \/ (s' = [] /\ bugged s).
+  (forall r, lang false st' s' r -> lang false (t :: st) s r) \/
+  (s' = [] /\ (st' <> [] \/ (t = FSM_VAL /\ st = [])) /\
+   exists w body, s = w ++ 34 :: body /\ all_ws w /\ bug_class body = true).
 Proof.
-  intros fuel slen t st s st' s' H Hl. unfold fsm_step in H.
+  intros fuel slen t st s st' s' H Hl. unfold fsm_step, fsm_step_g in H; fold fsm_value in H.
   destruct (advance_ns s) as [ch rest] eqn:EA.
   destruct (ch =? 0) eqn:Ez; [discriminate|].
   destruct (advance_ns_spec _ _ _ EA Ez) as [w [-> Hw]].
   assert (Hlr : (length rest <= fuel)%nat) by (rewrite app_length in Hl; cbn [length] in Hl; lia).
   destruct t.
   - (* VAL *)
-    destruct (value_sound _ _ _ _ _ _ _ H Hlr) as [V|[-> B]]; [left|right; split; [auto|apply bugged_app; auto]].
+    destruct (value_sound _ _ _ _ _ _ _ H Hlr) as [V|(-> & -> & -> & B)]; [left|right].
+    2: { split; [auto|]. split; [destruct st; [right; auto|left; discriminate]|]. exists w, rest. auto. }
     intros r L. destruct (V r L) as [v [s1 [E [Hv L1]]]].
     cbn [lang]. exists (w ++ v), s1. split; [rewrite <- app_assoc, <- E; reflexivity|]. split; [|auto].
     cbn [frame]. exists w, v. repeat split; auto. intros Hf; discriminate.
@@ -216,7 +219,7 @@ Proof.
       cbn [lang]. exists (w ++ 34 :: bd ++ 34 :: w1 ++ 58 :: y), s1.
       split; [repeat (rewrite <- !app_assoc; cbn [app]); reflexivity|]. split; [|auto].
       cbn [frame]. exists w, bd, w1, y. auto.
-    + right. split; [reflexivity|]. apply bugged_app. exists [], rest. auto.
+    + right. split; [reflexivity|]. split; [left; discriminate|]. exists w, rest. auto.
   - (* ELEM *)
     left. destruct (ch =? 58) eqn:E1; cbn [negb] in H; [|discriminate]. apply N.eqb_eq in E1. subst ch.
     inversion H; subst. intros r L. cbn [lang] in L. destruct L as [x1 [s1 [-> [Fv L]]]].
@@ -227,7 +230,8 @@ Proof.
     + left. apply N.eqb_eq in E1. subst ch. inversion H; subst. intros r L.
       cbn [lang]. exists (w ++ [93]), s'. split; [rewrite <- app_assoc; reflexivity|]. split; [|auto].
       cbn [frame]. left. exists w. auto.
-    + destruct (value_sound _ _ _ _ _ _ _ H Hlr) as [V|[-> B]]; [left|right; split; [auto|apply bugged_app; auto]].
+    + destruct (value_sound _ _ _ _ _ _ _ H Hlr) as [V|(-> & -> & -> & B)]; [left|right].
+      2: { split; [auto|]. split; [left; discriminate|]. exists w, rest. auto. }
       intros r L. destruct (V r L) as [v [s1 [E [Hv L1]]]].
       cbn [lang length] in L1. destruct L1 as [x2 [s2 [-> [Ft L2]]]]. cbn [frame] in Ft.
       cbn [length] in Hv.
@@ -252,15 +256,18 @@ Proof.
         cbn [lang]. exists (w ++ 34 :: bd ++ 34 :: w1 ++ 58 :: w2 ++ v ++ x2), s2.
         split; [repeat (rewrite <- !app_assoc; cbn [app]); reflexivity|]. split; [|auto].
         cbn [frame]. right. exists w, bd, w1, w2, v, x2. repeat split; auto. lia.
-      * right. split; [reflexivity|]. apply bugged_app. exists [], rest. auto.
+      * right. split; [reflexivity|]. split; [left; discriminate|]. exists w, rest. auto.
 Qed.
+
+Lemma precise_bugged : forall s, (exists w body, s = w ++ 34 :: body /\ all_ws w /\ bug_class body = true) -> bugged s.
+Proof. intros s (w & body & -> & _ & B). exists w, body. auto. Qed.
 
 (* progress: an iteration consumes a non-empty prefix of its input *)
 Lemma value_suffix : forall fuel slen st0 ch rest st' s',
   fsm_value fuel slen st0 ch rest = Ok (st', s') -> (length rest <= fuel)%nat ->
   exists c, ch :: rest = c ++ s' /\ c <> [].
 Proof.
-  intros fuel slen st0 ch rest st' s' H Hl. unfold fsm_value in H.
+  intros fuel slen st0 ch rest st' s' H Hl. unfold fsm_value, fsm_value_g in H.
   destruct (is_digit ch) eqn:Ed.
   { apply bind_ok in H. destruct H as [r1 [H1 H2]]. inversion H2; subst.
     unfold skip_positive_1 in H1. destruct (do_skip_number (ch :: rest)) eqn:E; [|discriminate]. inversion H1; subst.
@@ -295,7 +302,7 @@ Qed.
 Lemma step_suffix : forall fuel slen t st s st' s',
   fsm_step fuel slen t st s = Ok (st', s') -> (length s <= fuel)%nat -> exists c, s = c ++ s' /\ c <> [].
 Proof.
-  intros fuel slen t st s st' s' H Hl. unfold fsm_step in H.
+  intros fuel slen t st s st' s' H Hl. unfold fsm_step, fsm_step_g in H; fold fsm_value in H.
   destruct (advance_ns s) as [ch rest] eqn:EA.
   destruct (ch =? 0) eqn:Ez; [discriminate|].
   destruct (advance_ns_spec _ _ _ EA Ez) as [w [-> Hw]].
@@ -335,8 +342,8 @@ Qed.
 Lemma fsm_exec_nil : forall fuel slen st r, fsm_exec_1 fuel slen st [] = Some (Ok r) -> st = [] /\ r = [].
 Proof.
   intros fuel slen st r H. destruct st as [|t st].
-  - destruct fuel; cbn [fsm_exec_1] in H; inversion H; subst; split; reflexivity.
-  - destruct fuel; cbn [fsm_exec_1] in H; [discriminate|]. unfold fsm_step in H. cbn in H. discriminate.
+  - destruct fuel; exec_unfold_in H; inversion H; subst; split; reflexivity.
+  - destruct fuel; exec_unfold_in H; [discriminate|]. unfold fsm_step, fsm_step_g in H; fold fsm_value in H. cbn in H. discriminate.
 Qed.
 
 (* ---- the loop ------------------------------------------------------------------------------------------ *)
@@ -346,12 +353,13 @@ Theorem fsm_exec_sound : forall fuel slen st s r,
   lang false st s r \/ (r = [] /\ bugged s).
 Proof.
   induction fuel as [|f IH]; intros slen st s r H Hl.
-  - destruct st; cbn [fsm_exec_1] in H; [|discriminate]. inversion H; subst. left. reflexivity.
-  - destruct st as [|t st]; cbn [fsm_exec_1] in H; [inversion H; subst; left; reflexivity|].
+  - destruct st; exec_unfold_in H; [|discriminate]. inversion H; subst. left. reflexivity.
+  - destruct st as [|t st]; exec_unfold_in H; [inversion H; subst; left; reflexivity|].
     destruct (fsm_step (S f) slen t st s) as [[st2 s2]|e|] eqn:ES; try discriminate.
     pose proof (step_shorter _ _ _ _ _ _ _ ES Hl) as Hsh.
     destruct (step_suffix _ _ _ _ _ _ _ ES Hl) as [c [Ec _]].
-    destruct (step_sound _ _ _ _ _ _ _ ES Hl) as [P|[-> B]].
+    destruct (step_sound _ _ _ _ _ _ _ ES Hl) as [P|(-> & _ & B)].
+    2: apply precise_bugged in B.
     + destruct (IH slen st2 s2 r H ltac:(lia)) as [L|[-> B]].
       * left. auto.
       * right. split; [auto|]. rewrite Ec. apply bugged_app. auto.
@@ -366,6 +374,111 @@ Proof.
   intros fuel slen s r H Hl. destruct (fsm_exec_sound _ _ _ _ _ H Hl) as [L|B]; [left|right; auto].
   cbn [lang length] in L. destruct L as [x [s1 [-> [[w [v [-> [Hw [Hv _]]]]] ->]]]].
   rewrite Nat.sub_0_r in Hv. exists w, v. rewrite <- app_assoc. auto.
+Qed.
+
+(* ---- the defect can only fire on a bare top-level string --------------------------------------------------
+   after the first iteration the bottom frame of the stack is a container frame, so a string in the defect
+   class that leaves the stack empty must be the value scanned by the very first iteration *)
+
+Definition okb (t : vt) : Prop :=
+  match t with FSM_ARR | FSM_OBJ | FSM_ARR_0 | FSM_OBJ_0 => True | _ => False end.
+
+Definition good (st : list vt) : Prop := st = [] \/ okb (last st FSM_VAL).
+
+Lemma last_app_ne : forall (pre st : list vt) d, st <> [] -> last (pre ++ st) d = last st d.
+Proof.
+  induction pre as [|a pre IH]; intros st d H; [reflexivity|]. cbn [app].
+  assert (NE : pre ++ st <> []) by (destruct pre; cbn [app]; [auto|discriminate]).
+  transitivity (last (pre ++ st) d); [destruct (pre ++ st); [congruence|reflexivity]|apply IH; auto].
+Qed.
+
+Lemma step_shape : forall fuel slen t st s st' s',
+  fsm_step fuel slen t st s = Ok (st', s') ->
+  exists pre, st' = pre ++ st /\
+    (st = [] -> okb t -> st' = [] \/ okb (last st' FSM_VAL)) /\
+    (st = [] -> t = FSM_VAL -> st' = [] \/ okb (last st' FSM_VAL)).
+Proof.
+  intros fuel slen t st s st' s' H. unfold fsm_step, fsm_step_g in H; fold fsm_value in H.
+  destruct (advance_ns s) as [ch rest]. destruct (ch =? 0); [discriminate|].
+  assert (VS : forall st0, fsm_value fuel slen st0 ch rest = Ok (st', s') ->
+            st' = st0 \/ (st' = FSM_ARR_0 :: st0 \/ st' = FSM_OBJ_0 :: st0)).
+  { intros st0 HV. unfold fsm_value, fsm_value_g in HV.
+    repeat match type of HV with (if ?c then _ else _) = _ => destruct c end; try discriminate;
+    apply bind_ok in HV; destruct HV as [a [Ha Hb]]; inversion Hb; subst; auto;
+    apply fsm_push_inv in Ha; destruct Ha as [-> _]; auto. }
+  destruct t.
+  - destruct (VS _ H) as [->|[->| ->]].
+    + exists []. split; [reflexivity|]. split; intros -> _; left; reflexivity.
+    + exists [FSM_ARR_0]. split; [reflexivity|]. split; intros -> _; right; exact I.
+    + exists [FSM_OBJ_0]. split; [reflexivity|]. split; intros -> _; right; exact I.
+  - destruct (ch =? 93); [inversion H; subst; exists []; split; [reflexivity|split; [intros -> _; left; reflexivity|intros _ E; discriminate]]|].
+    destruct (ch =? 44); [|discriminate]. apply bind_ok in H. destruct H as [a [Ha Hb]]. inversion Hb; subst.
+    apply fsm_push_inv in Ha. destruct Ha as [-> _]. exists [FSM_VAL; FSM_ARR]. split; [reflexivity|].
+    split; [intros -> _; right; exact I|intros _ E; discriminate].
+  - destruct (ch =? 125); [inversion H; subst; exists []; split; [reflexivity|split; [intros -> _; left; reflexivity|intros _ E; discriminate]]|].
+    destruct (ch =? 44); [|discriminate]. apply bind_ok in H. destruct H as [a [Ha Hb]]. inversion Hb; subst.
+    apply fsm_push_inv in Ha. destruct Ha as [-> _]. exists [FSM_KEY; FSM_OBJ]. split; [reflexivity|].
+    split; [intros -> _; right; exact I|intros _ E; discriminate].
+  - destruct (negb (ch =? 34)); [discriminate|]. apply bind_ok in H. destruct H as [a [Ha Hb]]. inversion Hb; subst.
+    exists [FSM_ELEM]. split; [reflexivity|]. split; [intros _ []|intros _ E; discriminate].
+  - destruct (negb (ch =? 58)); [discriminate|]. inversion H; subst.
+    exists [FSM_VAL]. split; [reflexivity|]. split; [intros _ []|intros _ E; discriminate].
+  - destruct (ch =? 93); [inversion H; subst; exists []; split; [reflexivity|split; [intros -> _; left; reflexivity|intros _ E; discriminate]]|].
+    destruct (VS _ H) as [->|[->| ->]].
+    + exists [FSM_ARR]. split; [reflexivity|]. split; [intros -> _; right; exact I|intros _ E; discriminate].
+    + exists [FSM_ARR_0; FSM_ARR]. split; [reflexivity|]. split; [intros -> _; right; exact I|intros _ E; discriminate].
+    + exists [FSM_OBJ_0; FSM_ARR]. split; [reflexivity|]. split; [intros -> _; right; exact I|intros _ E; discriminate].
+  - destruct (ch =? 125); [inversion H; subst; exists []; split; [reflexivity|split; [intros -> _; left; reflexivity|intros _ E; discriminate]]|].
+    destruct (ch =? 34); [|discriminate].
+    apply bind_ok in H. destruct H as [a [Ha Hb]]. apply bind_ok in Hb. destruct Hb as [b [Hb Hc]]. inversion Hc; subst.
+    apply fsm_push_inv in Hb. destruct Hb as [-> _]. exists [FSM_ELEM; FSM_OBJ]. split; [reflexivity|].
+    split; [intros -> _; right; exact I|intros _ E; discriminate].
+Qed.
+
+Lemma good_step : forall fuel slen t st s st' s',
+  fsm_step fuel slen t st s = Ok (st', s') -> good (t :: st) -> good st'.
+Proof.
+  intros fuel slen t st s st' s' H [G|G]; [discriminate|].
+  destruct (step_shape _ _ _ _ _ _ _ H) as (pre & -> & A & _).
+  destruct st as [|u st].
+  - cbn [last] in G. rewrite app_nil_r in *. apply A; auto.
+  - right. rewrite last_app_ne by discriminate. cbn [last] in G. exact G.
+Qed.
+
+(* under `good` the defect branch is impossible: the loop accepts only what the grammar derives *)
+Lemma fsm_exec_sound_good : forall fuel slen st s r,
+  fsm_exec_1 fuel slen st s = Some (Ok r) -> (length s <= fuel)%nat -> good st -> lang false st s r.
+Proof.
+  induction fuel as [|f IH]; intros slen st s r H Hl G.
+  - destruct st; exec_unfold_in H; [|discriminate]. inversion H; subst. reflexivity.
+  - destruct st as [|t st]; exec_unfold_in H; [inversion H; subst; reflexivity|].
+    destruct (fsm_step (S f) slen t st s) as [[st2 s2]|e|] eqn:ES; try discriminate.
+    pose proof (step_shorter _ _ _ _ _ _ _ ES Hl) as Hsh.
+    pose proof (good_step _ _ _ _ _ _ _ ES G) as G2.
+    destruct (step_sound _ _ _ _ _ _ _ ES Hl) as [P|(-> & [NE|[-> ->]] & _)].
+    + apply P. apply (IH slen st2 s2 r H); auto; lia.
+    + apply fsm_exec_nil in H. destruct H as [-> _]. congruence.
+    + destruct G as [G|G]; [discriminate|]. cbn [last] in G. destruct G.
+Qed.
+
+(* sharp form of the partial soundness theorem: the only accepted non-values are blank* quote body with body in
+   the defect class of the string scanner, and they are consumed to the end of the input *)
+Theorem fsm_sound_sharp : forall fuel slen s r,
+  fsm_exec_1 fuel slen [FSM_VAL] s = Some (Ok r) -> (length s <= fuel)%nat ->
+  (exists w v, s = w ++ v ++ r /\ all_ws w /\ sval MAX_RECURSE v) \/
+  (r = [] /\ exists w body, s = w ++ 34 :: body /\ all_ws w /\ bug_class body = true).
+Proof.
+  intros fuel slen s r H Hl.
+  destruct fuel as [|f]; [discriminate|]. exec_unfold_in H.
+  destruct (fsm_step (S f) slen FSM_VAL [] s) as [[st2 s2]|e|] eqn:ES; try discriminate.
+  pose proof (step_shorter _ _ _ _ _ _ _ ES Hl) as Hsh.
+  destruct (step_shape _ _ _ _ _ _ _ ES) as (pre & _ & _ & G2). specialize (G2 eq_refl eq_refl).
+  destruct (step_sound _ _ _ _ _ _ _ ES Hl) as [P|(-> & _ & B)].
+  - left. assert (L : lang false [FSM_VAL] s r).
+    { apply P. apply (fsm_exec_sound_good f slen st2 s2 r H); [lia|exact G2]. }
+    cbn [lang length] in L. destruct L as [x [s1 [-> [[w [v [-> [Hw [Hv _]]]]] ->]]]].
+    rewrite Nat.sub_0_r in Hv. exists w, v. rewrite <- app_assoc. auto.
+  - right. apply fsm_exec_nil in H. destruct H as [_ ->]. auto.
 Qed.
 
 End WithNumberScanner.
